@@ -13,7 +13,8 @@ RULE = ("exhaustive: every array shape of rank 0-3 with extents 0..4 (156 shapes
         "the rank-1/2 shapes again as non-owning views, Fortran-ordered, read-only and strided arrays; flat "
         "lists/tuples of length 0..4, None, str, int, float, dict for each of the 25 validated constructor arguments (geometry of "
         "3D / force-torque / calibration blocks, the seven Seelab camera parameters, viewport halves, viewport parameters of "
-        "channel and camera records); for the coupled arrays of a force/torque track every triple of shapes of rank<=2 with "
+        "channel and camera records); constructors with several geometry arguments (3D, force/torque, calibration block: 3; Seelab camera: 7) with "
+        "two arguments wrong at once, the second related to the first (same shape, one more/less axis, reversed, 3 x or 2 x it), and with all arguments of one wrong shape; for the coupled arrays of a force/torque track every triple of shapes of rank<=2 with "
         "extents {0,1,2,3,5}, once as separate arrays and once cut from one owning table; events x both kinds x sized/unsized/non-iterable values; for every ACCEPTED object: nBytes = "
         "len(encoding) = the model's field width. non-trivial = argument that is an array; distinct by (parameter, argument)")
 ASSUMPTIONS = ["acceptance depends on kind and shape only, not on element values or on how the array was obtained; nested lists are not generated for viewport halves",
@@ -113,6 +114,52 @@ PARAMS = {  # param -> (model query kind, required shape)
 }
 
 
+JOINT = {"data3d": [[3], [3, 3], [3]], "force3d": [[3], [3, 3], [3]], "calib": [[3], [3, 3], [3]],
+         "seelab": [[3, 3], [3], [2], [2], [2], [2], [2]]}
+
+
+def related(s, req):
+    """shapes that a relational check ("the matrix has one more axis than the vector", "same shape as …", "3 x volume")
+    would accept together with a wrong shape s of another argument"""
+    s = tuple(s)
+    out = {s, (3,) + s, s + (3,), s + s, s[::-1], s[1:], s[:-1], tuple(req), (2,) + s, s + (2,)}
+    return [x for x in out if len(x) <= 4]
+
+
+def joint_space(rng, thorough):
+    base = [sh for sh in SHAPES if len(sh) <= (3 if thorough else 2)]
+    out = []
+    for cls, reqs in JOINT.items():
+        n = len(reqs)
+        pairs = [(i, j) for i in range(n) for j in range(n) if i != j]
+        if cls == "seelab" and not thorough:
+            pairs = [(i, j) for i, j in pairs if i < 3 or j < 3]
+        for i, j in pairs:
+            for sh in base:
+                for sj in related(sh, reqs[j]):
+                    shapes = [tuple(r) for r in reqs]
+                    shapes[i], shapes[j] = tuple(sh), tuple(sj)
+                    out.append((cls, reqs, shapes))
+        for sh in base:                      # all arguments of one (wrong) shape
+            out.append((cls, reqs, [tuple(sh)] * n))
+    return out
+
+
+def build_joint(cls, shapes):
+    from basictdf.tdfCalibrationData import CalibrationDataBlock, CalibrationDataBlockFormat, DistorsionModel, SeelabCameraData
+    from basictdf.tdfData3D import Data3D
+    from basictdf.tdfForce3D import ForceTorque3D
+    if cls in ("data3d", "force3d"):
+        v, r, t = (good(sh) for sh in shapes)
+        return (Data3D if cls == "data3d" else ForceTorque3D)(100, 2, volume=v, rotationMatrix=r, translationVector=t)
+    if cls == "calib":
+        v, r, t = (good(sh) for sh in shapes)
+        return CalibrationDataBlock(DistorsionModel(0), v, r, t, cameras_calibration_map=np.array([], dtype="<i2"), cam_data=[])
+    names = ["rotation_matrix", "translation_vector", "focus", "optical_center", "radial_distortion", "decentering", "thin_prism"]
+    cam = SeelabCameraData(**seelab_args(**{nm: good(sh, "<f8") for nm, sh in zip(names, shapes)}))
+    return CalibrationDataBlock(DistorsionModel(0), std("vol"), std("rot"), std("tr"), np.array([3], dtype="<i2"), [cam], CalibrationDataBlockFormat.Seelab1)
+
+
 def args_space(rng, thorough):
     out = []
     for s in SHAPES:
@@ -140,6 +187,11 @@ def run(ctx):
             q = [Sym(qk), req, marg] if qk == "shape" else [Sym(qk), marg]
             queries.append(q)
             meta.append((param, obj, desc))
+    # several geometry arguments wrong at once, the second wrong "in the same way" as the first
+    joint = joint_space(rng, ctx.thorough)
+    for cls, reqs, shapes in joint:
+        queries.append([Sym("all"), reqs, [[Sym("nd"), list(sh)] for sh in shapes]])
+        meta.append((f"{cls}.joint", shapes, f"joint{shapes}"))
     # coupled arrays
     cshapes = [()] + [(a,) for a in (0, 1, 2, 3, 5)] + [(a, b) for a in (0, 1, 2, 3, 5) for b in (0, 1, 2, 3, 5)]
     triples = list(itertools.product(cshapes, repeat=3)) if ctx.thorough else \
@@ -185,6 +237,8 @@ def run(ctx):
                         blk = None          # zero-frame track: outside the valid domain
                     else:
                         raise AcceptedButUnusable(f"{type(e2).__name__}: {e2}")
+            elif param.endswith(".joint"):
+                blk = build_joint(param.split(".")[0], obj)
             elif param == "event":
                 single, n, mk = obj
                 if n == "ni":
@@ -204,7 +258,7 @@ def run(ctx):
         accepted = exc is None
         if accepted and blk is None:
             continue
-        ctx.case((param, desc), nontrivial=desc.startswith("ndarray") or desc.startswith("coupled"), sample=dict(param=param, arg=desc, accepted=accepted) if accepted or ctx.rng.random() < 0.01 else None,
+        ctx.case((param, desc), nontrivial=desc.startswith(("ndarray", "coupled", "joint")), sample=dict(param=param, arg=desc, accepted=accepted) if accepted or ctx.rng.random() < 0.01 else None,
                  tags=(param.split(".")[0], "accepted" if accepted else "refused"))
         rp = dict(param=param, arg=desc)
         # oracle: no accepted object may be mis-sized
@@ -227,7 +281,7 @@ def run(ctx):
         if accepted != model_accepts:
             ctx.diff("shape.accepts", f"{param} with {desc}: real {'accepts' if accepted else 'refuses (' + type(exc).__name__ + ')'}, model {'accepts' if model_accepts else 'refuses'}", rp)
     ctx.exhaustive = True
-    ctx.notes.append(f"{len(PARAMS)} parameters x {len(space)} arguments, {len(triples)} coupled triples, events: exhaustive over the listed space")
+    ctx.notes.append(f"{len(PARAMS)} parameters x {len(space)} arguments, {len(joint)} joint argument tuples, {len(triples)} coupled triples, events: exhaustive over the listed space")
 
 
 def replay(path):
